@@ -190,6 +190,7 @@ func (vd Validator) valid(s *Schema, v any, path string, depth int) (bool, strin
 		}
 		if s.Min != "" {
 			m, _ := ratOf(json.Number(s.Min))
+			m = vd.bound(s, s.Min, m)
 			c := r.Cmp(m)
 			if c < 0 || (c == 0 && s.ExclMin) {
 				return false, path + ": below minimum"
@@ -197,6 +198,7 @@ func (vd Validator) valid(s *Schema, v any, path string, depth int) (bool, strin
 		}
 		if s.Max != "" {
 			m, _ := ratOf(json.Number(s.Max))
+			m = vd.bound(s, s.Max, m)
 			c := r.Cmp(m)
 			if c > 0 || (c == 0 && s.ExclMax) {
 				return false, path + ": above maximum"
@@ -321,4 +323,16 @@ func (vd Validator) valid(s *Schema, v any, path string, depth int) (bool, strin
 		}
 	}
 	return true, ""
+}
+
+// bound: in Float64Numbers mode the bounds of a "number" schema are doubles too (0.1 as an instance and
+// 0.1 as a maximum are the same double; as exact quantities the double 0.1 exceeds the decimal 0.1).
+func (vd Validator) bound(s *Schema, text string, exact *big.Rat) *big.Rat {
+	if !vd.Float64Numbers || s.Type != "number" {
+		return exact
+	}
+	if f, err := strconv.ParseFloat(text, 64); err == nil && !math.IsInf(f, 0) {
+		return new(big.Rat).SetFloat64(f)
+	}
+	return exact
 }
